@@ -769,6 +769,11 @@ def krylov(model, sfield, efield, var):
         i = -1  # Mark it as error; returned field is all zero.
         var.exit_message += " (returned field is zero)"
 
+    # Update the error for the returned field: the solver might have updated
+    # the field after the last callback, or multigrid (as preconditioner)
+    # has overwritten it with the error of the preconditioner system.
+    var.l2 = residual(model, sfield, efield, True)
+
     # Convergence-checks for sslsolver.
     if var.verb == 3:
         pre = 50*" " + "\r"
